@@ -97,6 +97,31 @@ def gen_trace_cases(F, rng: random.Random, n: int, nk: int, maxbits: int) -> lis
         except BaseException as e:
             out.append({'k': 'i2b', 'neg': v < 0, 'mag': mag(v), 'b': [], 'back': [], 'cls': type(e).__name__, 'val': []})
 
+    # integer instructions compute exact results at any magnitude that fits the item limit: results at both edges of
+    # an m-byte item (and one step beyond) produced by ADD_INTS / SUBTRACT_INTS / MULT_INTS under stack_max_item_size = m
+    def minimal(v):
+        return v.to_bytes((v + (v < 0)).bit_length() // 8 + 1, 'big', signed=True)
+
+    def push(b):
+        return (bytes([2]) + b) if len(b) == 1 else (bytes([3, len(b)]) + b) if len(b) < 256 else (bytes([4]) + len(b).to_bytes(2, 'big') + b)
+
+    for m in sorted(set([1, 2, 3, 7, 8, 9, 16, 31, 32, 33, 64, 128, 255, 256, 1024] + [rng.randrange(7, 1025) for _ in range(max(4, nk // 4))])):
+        edge = 2 ** (8 * m - 1)
+        for x in [edge - 3, edge - 2, edge - 1, edge, -edge + 1, -edge, -edge - 1]:
+            for opc, a, b in ((14, x - 1, 1), (15, x - 1, -1), (16, x, 1)):
+                # script: push b, push a (top), op 2.  ADD: (x-1) + 1; SUBTRACT: top minus the next = (x-1) - (-1); MULT: x * 1
+                if max(len(minimal(a)), len(minimal(b))) > m:
+                    continue
+                script = push(minimal(b)) + push(minimal(a)) + bytes([opc, 2])
+                try:
+                    _, st, _ = F.run_script(script, {}, stack_max_item_size=m)
+                    res = list(st.list()[-1]) if len(st) == 1 else []
+                    cls = ''
+                except BaseException as e:
+                    if isinstance(e, (KeyboardInterrupt, SystemExit)):
+                        raise
+                    res, cls = [], type(e).__name__
+                out.append({'k': 'fit', 'lim': m, 'neg': x < 0, 'mag': mag(x), 'b': res, 'back': [], 'cls': cls, 'val': [opc]})
     ks = sorted(set([rng.randrange(0, 16385) for _ in range(nk)] + [7, 8, 15, 16, 31, 32, 52, 53, 54, 63, 64, 65, 1023, 1024, 16384]))
     for k in ks:
         for d in range(-3, 4):
